@@ -25,7 +25,7 @@ RULE = ("Cells = problem x fault-site family x exception class, enumerated compl
         "exception class; warnings.showwarning (identity) and sys.getrecursionlimit() are as before the call; the "
         "next clean solve equals (1e-9) the solve of a fresh identical problem that never saw a fault.  Non-trivial "
         "= the fault fired after a cache field was populated or while the warning hook was swapped."
-        "  Also: a maximise variant of the LP and a 430-term loop-built objective; the body runs in a fresh thread under Python's default recursion limit.")
+        "  Also: a maximise variant of the LP, a 430-term loop-built objective, and a 730-term objective with the fault raised from inside the compiled evaluator (a NumPy function planted in one node); the body runs in a fresh thread under Python's default recursion limit.")
 BUDGET = {"quick": {"workers": 16, "per_cell": 1}, "thorough": {"workers": 16, "per_cell": 6}}
 ASSUMPTIONS = ["faults are synchronous exceptions at the seams the property names; asynchronous signals inside SciPy's C code are not simulated"]
 MANIFEST = {
@@ -33,13 +33,17 @@ MANIFEST = {
  "text": "all fault positions of each generated problem are enumerated (up to 25 per site, spread beyond); problem data and fault sequences are sampled",
 }
 
-PROBLEMS = ["lp", "qp-slsqp", "nlp-trust", "lbfgsb", "qp-in-recursion-block", "deep-sum"]
-SITES = ["entry", "fun", "jac", "hess", "cfun", "cjac", "compile_expression", "compile_jacobian", "compile_hessian"]
+PROBLEMS = ["lp", "qp-slsqp", "nlp-trust", "lbfgsb", "qp-in-recursion-block", "deep-sum", "deep-sum-730"]
+SITES = ["entry", "fun", "jac", "hess", "cfun", "cjac", "compile_expression", "compile_jacobian", "compile_hessian", "inside"]
+_CURRENT = {"inj": None}   # the injector consulted by the NumPy function planted inside a compiled evaluator
 EXCS = {"ValueError": ValueError, "FloatingPointError": FloatingPointError, "MemoryError": MemoryError,
         "KeyboardInterrupt": KeyboardInterrupt}
 
 
 def applicable(problem, site):
+    if site == "inside" or problem == "deep-sum-730":
+        # a fault raised from INSIDE optyx's compiled evaluator (k-th call of a NumPy function of a 730-term objective)
+        return site == "inside" and problem == "deep-sum-730"
     if problem == "lp":
         return site == "entry"
     if problem == "deep-sum":
@@ -91,6 +95,19 @@ def make_problem(case):
         w = VectorVariable("w", 5, lb=-3, ub=3)
         obj = (w[0] - a) ** 2
         for i in range(1, 430):
+            obj = obj + (w[i % 5] - 0.01 * i) ** 2
+        return Problem().minimize(obj), "L-BFGS-B"
+    if kind == "deep-sum-730":
+        w = VectorVariable("w", 5, lb=-3, ub=3)
+        node = cosh(w[0] - a)
+
+        def planted(v, _f=node._numpy_func):
+            if _CURRENT["inj"] is not None:
+                _CURRENT["inj"].hit("inside")
+            return _f(v)
+        node._numpy_func = planted
+        obj = node
+        for i in range(1, 730):
             obj = obj + (w[i % 5] - 0.01 * i) ** 2
         return Problem().minimize(obj), "L-BFGS-B"
     v = VectorVariable("v", 3, lb=-2, ub=2)
@@ -164,9 +181,11 @@ class Injector:
             return real_ch(*a, **k)
         ss.minimize, so.linprog = spy_min, spy_lp
         cp.compile_expression, ad.compile_jacobian, ad.compile_hessian = spy_ce, spy_cj, spy_ch
+        _CURRENT["inj"] = self
         try:
             yield self
         finally:
+            _CURRENT["inj"] = None
             ss.minimize, so.linprog = real_min, real_lp
             cp.compile_expression, ad.compile_jacobian, ad.compile_hessian = real_ce, real_cj, real_ch
 
